@@ -195,7 +195,7 @@ int graphic::mapping::clear_cycles(hint h) const
 		if (h.match & laydest::MatchGraph  && e.key.grf != h.grf) {
 			continue;
 		}
-		if (h.match & laydest::MatchWorld  && e.key.grf != h.wld) {
+		if (h.match & laydest::MatchWorld  && e.key.wld != h.wld) {
 			continue;
 		}
 		if (!e.value.instance()) {
